@@ -9,7 +9,8 @@ Record split_fn := mkSplit {
   sp_borrow : bool;          (* receiver is [&mut self]: the buffer outlives the iterators and can be split again *)
   sp_reset : tri bool;       (* self.set_{prod,work,cons}_index(0) *)
   sp_alive : tri bool;       (* self.set_{prod,work,cons}_alive(true) *)
-  sp_iters : tri bool        (* ProdIter::new / WorkIter::new / ConsIter::new *)
+  sp_iters : tri bool;       (* ProdIter::new / WorkIter::new / ConsIter::new *)
+  sp_heap_only : bool        (* the impl is restricted to heap storage: such a buffer has no [&mut self] split, it is consumed by its one split *)
 }.
 
 Definition sp_worker (f : split_fn) : bool := tW (sp_iters f).
@@ -24,8 +25,10 @@ Definition apply_split (f : split_fn) (s : mstate) : mstate :=
       (sp_worker f) (heap s) (owned s) (freed s) (nid s).
 
 (** the decidable condition: producer and consumer are created, the liveness bits set are exactly those of the iterators created,
-    and a split that can be repeated resets all three published indices *)
+    and a split that can be reached by a buffer that was split before resets all three published indices - that is every
+    [&mut self] split AND every by-value split whose impl is not restricted to heap storage (F11: a stack buffer can be split by
+    reference, used, and then split by value) *)
 Definition split_ok (f : split_fn) : bool :=
   tP (sp_iters f) && tC (sp_iters f) &&
   Bool.eqb (tP (sp_alive f)) (tP (sp_iters f)) && Bool.eqb (tW (sp_alive f)) (tW (sp_iters f)) && Bool.eqb (tC (sp_alive f)) (tC (sp_iters f)) &&
-  (negb (sp_borrow f) || (tP (sp_reset f) && tW (sp_reset f) && tC (sp_reset f))).
+  ((negb (sp_borrow f) && sp_heap_only f) || (tP (sp_reset f) && tW (sp_reset f) && tC (sp_reset f))).
